@@ -150,6 +150,7 @@ class Journaler:
             "DELETE FROM message WHERE session = ? AND seqNo >= ? AND direction = ?",
             (session.key, next_num_out, MessageDirection.OUTBOUND.value),
         )
+        self.conn.commit()
 
     def persist_msg(
         self,
